@@ -1,21 +1,39 @@
 import BindgenModel.Driver.C03
+import BindgenModel.Driver.C07
+import BindgenModel.Driver.C08
 import BindgenModel.Driver.C17
-/-! `bgmodel`: one request per input line, one answer per output line. -/
+/-! `bgmodel`: one request per input line, one answer per output line (lines between `ir-begin`
+and `ir-end` load an IR dump and produce no output). -/
 open BindgenModel
 
-def dispatch (line : String) : String :=
-  match (line.trimAscii.toString.splitOn " ").filter (· ≠ "") with
-  | "bf" :: rest => Driver.C03.handle rest
-  | "c17" :: rest => Driver.C17.handle rest
-  | _ => "bad-op"
+structure St where
+  ir : IR.IR := {}
+  inIr : Bool := false
 
-partial def loop (h : IO.FS.Stream) (out : IO.FS.Stream) : IO Unit := do
+def dispatch (st : St) (line : String) : St × Option String :=
+  let line := line.trimAscii.toString
+  if line == "ir-begin" then ({ ir := {}, inIr := true }, none)
+  else if line == "ir-end" then ({ st with inIr := false }, some s!"loaded items={st.ir.size}")
+  else if st.inIr then ({ st with ir := IR.addLine st.ir line }, none)
+  else
+  match (line.splitOn " ").filter (· ≠ "") with
+  | "bfalloc" :: rest => (st, some (Driver.C03.handleAlloc rest))
+  | "bf" :: rest => (st, some (Driver.C03.handle rest))
+  | "c17" :: rest => (st, some (Driver.C17.handle rest))
+  | ["irderives"] => (st, some (Driver.C08.derives st.ir))
+  | ["irchk", seed] => (st, some (Driver.C07.check st.ir (seed.toNat?.getD 0)))
+  | _ => (st, some "bad-op")
+
+partial def loop (h : IO.FS.Stream) (out : IO.FS.Stream) (st : St) : IO Unit := do
   let line ← h.getLine
   if line.isEmpty then return ()
-  out.putStrLn (dispatch line)
-  loop h out
+  let (st', ans) := dispatch st line
+  match ans with
+  | some a => out.putStrLn a
+  | none => pure ()
+  loop h out st'
 
 def main : IO Unit := do
   let out ← IO.getStdout
-  loop (← IO.getStdin) out
+  loop (← IO.getStdin) out {}
   out.flush
